@@ -853,7 +853,10 @@ fn algebra_case<T: El>(rng: &mut Rng, rep: &mut Report, tag: &str) {
     let r = catch(|| {
         // both argument orders: intersection/union pick the smaller/larger side
         algebra_pair(&a, &b, &sa, &sb)?;
-        algebra_pair(&b, &a, &sb, &sa)
+        algebra_pair(&b, &a, &sb, &sa)?;
+        // a set with itself (the very same object on both sides)
+        algebra_pair(&a, &a, &sa, &sa)?;
+        algebra_pair(&b, &b, &sb, &sb)
     });
     match r {
         Err(p) => {
